@@ -748,6 +748,10 @@ OFFLINE_SPECS = ["MS 1 0 0 maximum", "MS 4 1 1 maximum", "MS 7 0 2 revolve", "MX
                  "RV 5 2 1 1 2 2", "DR 6 1 1 1 2 2", "PD 7 1 1 1 2 2", "HR 6 1 1 1 1 2 2", "HR 1 1 0 1 1 2 2"]
 
 
+OFFLINE_BIG = ["MS 257 0 3 maximum", "MS 300 2 1 revolve", "MX 260 3 D 0", "RV 257 3 1 1 2 2", "DR 300 2 1 1 2 2",
+               "PD 258 2 1 1 2 2", "HR 257 1 2 1 1 2 2", "MS 1000 1 4 maximum"]
+
+
 def hist_inputs(tier, seed):
     out = []
     depth = 8 if tier == "quick" else 12
@@ -766,6 +770,21 @@ def hist_inputs(tier, seed):
         for i in range(0, depth + 1):
             for k in range(-1, n + 3):
                 out.append((spec, tuple(["n"] * i + [f"f{k}"] + ["n"] * 6)))
+    # sizes beyond CPython's small-integer cache (-5..256) and beyond 2^31: equal numbers that are distinct objects
+    for spec in OFFLINE_BIG:
+        n = int(spec.split()[1])
+        for i in range(0, depth + 1):
+            for k in (n - 1, n, n + 1):
+                out.append((spec, tuple(["n"] * i + [f"f{k}"] + ["n"] * 4)))
+                out.append((spec, tuple(["n"] * i + [f"f{k}", f"f{n}"] + ["n"] * 2)))
+    for spec in ONLINE_SPECS:
+        per = int(spec.split()[1]) if spec.startswith("TL") else 1
+        for big in (257, 1000, 2 ** 31 + 5):
+            if spec[:2] in ("SD", "TL") and big > 1000:
+                continue
+            steps = (big + per - 1) // per + 1 if spec[:2] in ("SD", "TL") else 1
+            for k2 in (big - 1, big, big + 1):
+                out.append((spec, tuple(["n"] * steps + [f"f{big}", f"f{k2}", "n", f"f{k2}", "n", "n"])))
     rng = random.Random(seed * 7919 + 13)
     count = 300 if tier == "quick" else 4000
     specs = ONLINE_SPECS + OFFLINE_SPECS
